@@ -23,8 +23,9 @@
    change the state.  A write through the facade on an `initializing` ledger (single requests, elements of a non-atomic
    bulk) runs in a transaction that first flips the state to `in-use` and, when the flip happened, sets both sequences to
    max(id) (setval is not transactional; setval(NULL) is a no-op); rollback (failure, dry run) undoes the flip.
-   ATOMIC bulk: Bulker.Run calls ctrl.BeginTX, which the facade inherits from the wrapped controller: the elements run
-   on the inner controller, no flip, no resync (suspect S-11). *)
+   ATOMIC bulk: Bulker.Run calls ctrl.BeginTX.  The facade used to inherit it from the wrapped controller (no flip, no
+   resync: S-11, [w_atomic_unrepaired]); since fixes/01-facade-begintx it overrides it and runs the handleState protocol
+   inside the transaction of the bulk ([w_atomic]). *)
 From Coq Require Import List ZArith String Bool Ascii.
 From LV Require Import Base.Util Base.Json Ledger.Types Ledger.Core Ledger.Bulk Ledger.HashChain.
 Import ListNotations.
@@ -253,7 +254,7 @@ Section Hashed.
   Definition w_bulk (f : features) (now : Z) (b : istate) (os : list op) : istate * list bres :=
     run_bulk (w_elem f now) bres_ok BCancelled (fun b0 _ => b0) false false b os.
 
-  (* ATOMIC bulk: the inner controller inside one SQL transaction; no state flip, no resync.  An element that draws an id
+  (* ATOMIC bulk: the elements run on the inner controller inside one SQL transaction.  An element that draws an id
      which is already stored hits the primary key: InsertTransaction dereferences the nil tx.ID (transactions_ledger), or
      InsertLog swallows the violation and runLog dereferences the nil log.ID (logs_ledger) -- the pond worker recovers the
      panic, NO result is sent for the element, hasError stays false and the SQL transaction is aborted: every later
@@ -291,11 +292,24 @@ Section Hashed.
     end.
 
   Inductive aout := AResults (rs : list ares) | ACommitFailed.   (* ACommitFailed: Run returns "commit unexpectedly resulted in rollback" *)
-  Definition w_atomic (f : features) (now : Z) (b : istate) (os : list op) : istate * aout :=
+
+  (* BEFORE the repair fixes/01-facade-begintx (kept for the record and for the witnesses of the defect): the facade
+     inherited BeginTX, so the bulk ran on the inner controller: no lock, no state flip, no sequence resync *)
+  Definition w_atomic_unrepaired (f : features) (now : Z) (b : istate) (os : list op) : istate * aout :=
     let '(s', rs, aborted, err) := atomic_run f now (i_s b) false false os in
     if err || aborted then
       ({| i_s := only_sequences (i_s b) s'; i_tab := i_tab b; i_l := i_l b |}, if err then AResults rs else ACommitFailed)
     else ({| i_s := s'; i_tab := tab_after f (i_tab b) (i_s b) s'; i_l := i_l b |}, AResults rs).
+
+  (* controllerFacade.BeginTX (since the repair): on a ledger that is still initializing the transaction of the bulk first
+     takes the ledger lock, flips the state and resynchronises the sequences (markInUse), exactly as handleState does for a
+     single write; the flip commits or rolls back with the bulk, setval is not transactional *)
+  Definition w_atomic (f : features) (now : Z) (b : istate) (os : list op) : istate * aout :=
+    let s0 := match i_l b with Initializing => resync (i_s b) | InUse => i_s b end in
+    let '(s', rs, aborted, err) := atomic_run f now s0 false false os in
+    if err || aborted then
+      ({| i_s := only_sequences (i_s b) s'; i_tab := i_tab b; i_l := i_l b |}, if err then AResults rs else ACommitFailed)
+    else ({| i_s := s'; i_tab := tab_after f (i_tab b) s0 s'; i_l := InUse |}, AResults rs).
 
   (* the source ledger: a history run from the empty ledger, with the hash column the trigger maintained *)
   Definition source (f : features) (h : list (Z * op)) : istate :=
@@ -348,7 +362,8 @@ Inductive action :=
 | AImport (drop : nat) (take : option nat) (now : Z)
 | ASingle (ops : list (Z * op))
 | ABulk (now : Z) (ops : list op)
-| AAtomic (now : Z) (ops : list op).
+| AAtomic (now : Z) (ops : list op)
+| AAtomicUnrepaired (now : Z) (ops : list op).     (* the code before fixes/01-facade-begintx (witnesses only) *)
 
 Inductive aresult :=
 | RImport (e : option ierr) (b : istate)      (* the copy right after the import (for the comparison with the source) *)
@@ -372,6 +387,7 @@ Definition run_action (f : features) (stream : list (log * bytes)) (b : istate) 
     (b', RSingle rs)
   | ABulk now ops => let '(b', rs) := w_bulk toy_H toy_pre f now b ops in (b', RBulk rs)
   | AAtomic now ops => let '(b', o) := w_atomic toy_H toy_pre f now b ops in (b', RAtomic o)
+  | AAtomicUnrepaired now ops => let '(b', o) := w_atomic_unrepaired toy_H toy_pre f now b ops in (b', RAtomic o)
   end.
 
 Definition run_script (f : features) (h : list (Z * op)) (sc : list action) : istate * istate * list aresult :=
